@@ -129,7 +129,11 @@ func (s *Server) handleProposeVersions(msg protocol.Message) error {
 	}
 	// Send refusal if there are no matching versions
 	if len(versionIntersect) == 0 {
-		var supportedVersions []uint16
+		supportedVersions := make(
+			[]uint16,
+			0,
+			len(s.config.ProtocolVersionMap),
+		)
 		for supportedVersion := range s.config.ProtocolVersionMap {
 			supportedVersions = append(supportedVersions, supportedVersion)
 		}
